@@ -198,4 +198,15 @@ def scanner_syncReaderToBatcherWithTimeFlush : List String := ["newReaderMetrics
 /-- `OpenFilesToChan`: opening a file and the branch taken when that fails -/
 def openError_openFilesToChan : List String := ["file,err:=openFileToReader(goFilename,gunzip)", "if err!=nil{", "do:logger.Printf(\"Erroropeningfile%s:%v\",goFilename,err)", "do:out.incErrors()", "return:", "}"]
 
+/-- `Extractor.asyncWorker` (pkg/extractor/extractor.go): one context per worker; receive until the batch channel is
+    closed; every line of the batch through `processLineSync(batch.Source, batch.BatchStart + idx, str)` in order;
+    the matches of ONE input batch collected in order and sent as one batch on `readChan` iff there is at least
+    one; nothing else happens between two batches (no per-worker tallies to publish: the counters are updated in
+    `processLineSync`, line by line). -/
+def stmts_asyncWorker : List String := ["defer:wg.Done()", "stmt:matcher:=s.matcherFactory.CreateInstance()", "stmt:si:=extractorInstance{Extractor:s,matcher:matcher,context:&SliceSpaceExpressionContext{nameTable:matcher.SubexpNameTable(),},}", "for:{", "stmt:batch,more:=<-inputBatch", "if:!more{", "stmt:break", "}", "stmt:varmatchBatch[]Match", "range:batch.Batch{", "if:match,ok:=si.processLineSync(batch.Source,batch.BatchStart+uint64(idx),str);ok{", "if:matchBatch==nil{", "stmt:matchBatch=make([]Match,0,len(batch.Batch))", "}", "stmt:matchBatch=append(matchBatch,match)", "}", "}", "if:len(matchBatch)>0{", "send:s.readChan<-matchBatch", "}", "}"]
+
+/-- `extractor.New`: `readChan` of capacity 5 (the model's `K`), `getWorkerCount()` workers on the SAME input channel,
+    `close(readChan)` after all workers are done. -/
+def stmts_extractorNew : List String := ["stmt:compiledExpression,compErr:=funclib.NewKeyBuilder().Compile(config.Extract)", "if:compErr!=nil{", "return:nil,compErr", "}", "stmt:extractor:=Extractor{readChan:make(chan[]Match,5),matcherFactory:config.Matcher,keyBuilder:compiledExpression,config:*config,ignore:config.Ignore,}", "stmt:varwgsync.WaitGroup", "for:i<config.getWorkerCount(){", "do:wg.Add(1)", "go:extractor.asyncWorker(&wg,inputBatch)", "}", "go{", "do:wg.Wait()", "do:close(extractor.readChan)", "}", "return:&extractor,nil"]
+
 end Rare.C01.Source
